@@ -135,6 +135,10 @@ func GetExtendedSpatialIdsWithinRadiusOfLine(startPoint *object.Point, endPoint 
 
 			// Put idConvex into measure's ConvexHulls[1]
 			measure1.ConvexHulls[1] = idConvex
+			// start every measurement from the same initial search direction: the measure object keeps the
+			// direction of the previous voxel, which made the distance (and so the result) depend on the
+			// random order in which the candidate voxels are visited
+			measure1.Direction = mgl64.Vec3{}
 
 			// Measure the distance between the line (ConvexHull[0]) and the
 			// SpatialIDs vertex vectors (ConvexHull[1])
